@@ -408,13 +408,14 @@ def construction_faults(specs):
     return out
 
 
-def warm(sc):
+def warm(sc, light=False):
     """Use a `Statechart` the way a client does before it edits it: ask every structural question
-    and run it.  Deterministic; whatever the statechart remembers from this must not matter later."""
+    and run it (`light`: run it only — what is remembered then is about the states the run came across).
+    Deterministic; whatever the statechart remembers from this must not matter later."""
     from sismic.interpreter import Interpreter
     from sismic.model import Event
     names = list(sc.states)
-    for n in names:
+    for n in ([] if light else names):
         for q in (sc.depth_for, sc.ancestors_for, sc.descendants_for, sc.children_for, sc.parent_for,
                   sc.transitions_from, sc.transitions_to, sc.state_for):
             try:
@@ -426,7 +427,7 @@ def warm(sc):
                 sc.least_common_ancestor(n, m)
             except Exception:       # noqa
                 pass
-    for q in (sc.events_for, lambda: sc.transitions, lambda: sc.root, lambda: sc.leaf_for(names)):
+    for q in (() if light else (sc.events_for, lambda: sc.transitions, lambda: sc.root, lambda: sc.leaf_for(names))):
         try:
             q()
         except Exception:           # noqa
@@ -450,6 +451,8 @@ def apply_edits(sc, edits, check=False):
                 sc.rename_state(e[1], e[2])
             elif e[0] == 'remove':
                 sc.remove_state(e[1])
+            elif e[0] == 'addstate':
+                sc.add_state(BasicState(e[1]), e[2])
             elif e[0] == 'addtrans':
                 sc.add_transition(Transition(e[1], e[2], event=e[3], priority=e[4]))
             elif e[0] == 'initial':
@@ -480,7 +483,7 @@ def apply_edits(sc, edits, check=False):
 
 
 def inconsistent(sc):
-    """None, or what is wrong between parent_for and children_for"""
+    """None, or what is wrong between parent_for, children_for and the queries derived from them"""
     try:
         for x in sc.states:
             p = sc.parent_for(x)
@@ -492,6 +495,33 @@ def inconsistent(sc):
             for c in sc.children_for(x):
                 if sc.parent_for(c) != x:
                     return 'children_for(%r) holds %r whose parent_for is %r' % (x, c, sc.parent_for(c))
+        # the derived queries say what parent_for / children_for imply (whatever the statechart remembers of its past):
+        # ancestors_for = the chain of parents, nearest first; depth_for = its length + 1; descendants_for = everything
+        # below, by increasing depth
+        names = list(sc.states)
+        chain = {}
+        for x in names:
+            c, p, n = [], sc.parent_for(x), 0
+            while p is not None and n <= len(names):
+                c.append(p)
+                p = sc.parent_for(p)
+                n += 1
+            if n > len(names):
+                return 'the parents of %r form a cycle' % x
+            chain[x] = c
+        for x in names:
+            if list(sc.ancestors_for(x)) != chain[x]:
+                return 'ancestors_for(%r) is %r, the chain of parent_for is %r' % (x, sc.ancestors_for(x), chain[x])
+            if sc.depth_for(x) != len(chain[x]) + 1:
+                return 'depth_for(%r) is %r with ancestors %r' % (x, sc.depth_for(x), chain[x])
+        for x in names:
+            d = list(sc.descendants_for(x))
+            below = [y for y in names if x in chain[y]]
+            if sorted(d) != sorted(below):
+                return 'descendants_for(%r) is %r, the states below it are %r' % (x, d, below)
+            depths = [len(chain[y]) for y in d]
+            if depths != sorted(depths):
+                return 'descendants_for(%r) = %r is not by increasing depth' % (x, d)
     except Exception as e:      # noqa
         return 'a structural query raised %s: %s' % (type(e).__name__, str(e)[:100])
     return None
@@ -517,7 +547,7 @@ def plan_edits(r, sc, need_wf=True):
         if not names:
             break
         c = r.random()
-        if c < 0.55:
+        if c < 0.5:
             # prefer moving a state that has something below it
             deep = [n for n in names if sc.children_for(n)]
             a = r.choice(deep) if deep and r.random() < 0.7 else r.choice(names)
@@ -529,17 +559,21 @@ def plan_edits(r, sc, need_wf=True):
                       (isinstance(sc.state_for(b), OrthogonalState) and owners_ok(a)))]
             if not cands:
                 continue
-            b = r.choice(cands)
+            # (half of the time as far down as it can go: what moved is then deeper than it ever was)
+            b = max(sorted(cands), key=sc.depth_for) if r.random() < 0.5 else r.choice(cands)
             do(['move', a, b])
-            if r.random() < 0.5 and owners_ok(a):
+            if r.random() < 0.7 and (owners_ok(a) or any(owners_ok(x) for x in sc.descendants_for(a))):
                 # the moved state and one of its new ancestors react to the same event
                 up = [x for x in [b] + sc.ancestors_for(b) if owners_ok(x)]
                 if up:
                     ev = r.choice(EVENTS)
                     pr = r.choice([0, 0, 1, -1])
-                    do(['addtrans', a, a, ev, pr])
-                    do(['addtrans', r.choice(up), None if r.random() < 0.3 else a, ev, pr])
-        elif c < 0.7:
+                    # (or a state further down in what moved: it moved just as much)
+                    below = [x for x in sc.descendants_for(a) if owners_ok(x)]
+                    d = r.choice(below) if below and (r.random() < 0.6 or not owners_ok(a)) else a
+                    do(['addtrans', d, d, ev, pr])
+                    do(['addtrans', up[0] if r.random() < 0.5 else r.choice(up), None if r.random() < 0.3 else a, ev, pr])
+        elif c < 0.63:
             # a transition gets another source (and perhaps another target)
             ts = sc.transitions
             srcs = [n for n in sc.states if owners_ok(n)]
@@ -551,7 +585,7 @@ def plan_edits(r, sc, need_wf=True):
                 continue
             tg = '<keep>' if r.random() < 0.6 else r.choice([None] + [n for n in sc.states if n != sc.root])
             do(['rotate', i, src, tg])
-        elif c < 0.87:
+        elif c < 0.8:
             # (the root state can be renamed like any other; by preference a state with something below it)
             deep = [n for n in names if sc.children_for(n)]
             a = r.choice(deep) if deep and r.random() < 0.6 else r.choice(names + [sc.root])
@@ -563,7 +597,19 @@ def plan_edits(r, sc, need_wf=True):
         else:
             leaves = [n for n in names if not sc.children_for(n)]
             if leaves:
-                do(['remove', r.choice(leaves)])
+                x = r.choice(leaves)
+                was_basic = type(sc.state_for(x)) is BasicState
+                old_parent = sc.parent_for(x)
+                do(['remove', x])
+                if was_basic and r.random() < 0.7:
+                    # the name comes back somewhere else: a new state called the same under another parent, and a
+                    # way to reach it (whatever was remembered about the old bearer of the name is about nobody now)
+                    cands = [b for b in sc.states if b != old_parent and isinstance(sc.state_for(b), CompoundState)]
+                    srcs = [n for n in sc.states if owners_ok(n)]
+                    if cands and srcs:
+                        do(['addstate', x, r.choice(cands)])
+                        do(['addtrans', sc.root if (owners_ok(sc.root) and r.random() < 0.5) else r.choice(srcs), x, r.choice(EVENTS),
+                            r.choice([0, 0, 1])])
     if not edits:
         return None
     # whatever was edited, parents and children still agree (asked through the public queries)
